@@ -220,9 +220,9 @@ def check_case(case) -> Result:
     # but another gravity, another temperature, ...) and other pressures evaluated in between must not change it
     p_top = float(p[idx[-1]])
     lib("pseudopressure_Hussainy", history_independent, res, "C08/independent-of-call-history", G.pseudopressure_Hussainy, (T, p_top, tpc, ppc, sg),
-        [(T, 0.5 * p_top, tpc, ppc, min(1.5, sg * 1.2)), (T, 0.3 * p_top, tpc, ppc, sg * 0.85), (T + 1.0, 0.5 * p_top, tpc, ppc, sg), (T, 0.7 * p_top, tpc, ppc, sg)], "pseudopressure_Hussainy")
+        [(T, 0.5 * p_top, tpc, ppc, min(1.5, sg * 1.2)), (T, 0.3 * p_top, tpc, ppc, sg * 0.85), (T + 1.0, 0.5 * p_top, tpc, ppc, sg), (T, 0.7 * p_top, tpc, ppc, sg)], "pseudopressure_Hussainy", 1e-7)
     h_again = float(lib("pseudopressure_Hussainy", G.pseudopressure_Hussainy, T, p_top, tpc, ppc, sg))
-    if h_again != H[-1]:
+    if abs(h_again - H[-1]) > 1e-7 * abs(H[-1]):
         res.bad("C08/independent-of-call-history", f"pseudopressure_Hussainy({T!r}, {p_top!r}, ..., sg={sg!r}) = {H[-1]!r} when first evaluated, {h_again!r} after other gases / pressures were evaluated")
     # additivity of the quadrature route over adjacent intervals (arbitrary, off-node pressures)
     lo = 14.7 + case["offnode"][0] * (pmax - 14.7) * 0.5
